@@ -72,7 +72,7 @@ theorem C07_liveness (c : Conv K F) (req : List String)
   simp [horder, hnm, hfl', her']
 
 /-- the flux row and the error row the convolution assigns to one SED -/
-def rowOf (cv ce : S → K) (aps : Option (List K)) (sedOf : String → Nat → Ap S) (X : String) :
+def convRowOf (cv ce : S → K) (aps : Option (List K)) (sedOf : String → Nat → Ap S) (X : String) :
     List K × List K := convRow cv ce (nApOf aps) (sedOf X)
 
 /-- **C07 (formats).** A per-file package and a cube package built from the same name → SED map
@@ -97,7 +97,7 @@ theorem C07_formats [Zero K] (cv ce : S → K) (w : K) (aps : Option (List K))
       f1.apertures = aps ∧ f2.apertures = aps ∧ f1.filtwav = w ∧ f2.filtwav = w ∧
       ∀ X, f1.lookup X = f2.lookup X ∧
         (X ∈ listing.map (·.name) →
-          f1.lookup X = some ((rowOf cv ce aps sedOf X).1, (rowOf cv ce aps sedOf X).2)) := by
+          f1.lookup X = some ((convRowOf cv ce aps sedOf X).1, (convRowOf cv ce aps sedOf X).2)) := by
   obtain ⟨first, rest, rfl⟩ := List.exists_cons_of_ne_nil hne
   have hfirst : first.apertures = aps := (hfiles first (by simp)).1
   -- names ≤ 30 characters: truncation is the identity on every name in play
@@ -110,14 +110,14 @@ theorem C07_formats [Zero K] (cv ce : S → K) (w : K) (aps : Option (List K))
     simp only [v1Unsorted]
     exact List.map_congr_left (fun s hs => (hfiles s hs).2.2)
   have hflux : (v1Unsorted cv ce w first (first :: rest)).flux
-      = (v1Unsorted cv ce w first (first :: rest)).names.map (fun X => (rowOf cv ce aps sedOf X).1) := by
+      = (v1Unsorted cv ce w first (first :: rest)).names.map (fun X => (convRowOf cv ce aps sedOf X).1) := by
     rw [hnames]
-    simp only [v1Unsorted, List.map_map, rowOf, hfirst]
+    simp only [v1Unsorted, List.map_map, convRowOf, hfirst]
     exact List.map_congr_left (fun s hs => by simp [(hfiles s hs).2.1])
   have herr : (v1Unsorted cv ce w first (first :: rest)).error
-      = (v1Unsorted cv ce w first (first :: rest)).names.map (fun X => (rowOf cv ce aps sedOf X).2) := by
+      = (v1Unsorted cv ce w first (first :: rest)).names.map (fun X => (convRowOf cv ce aps sedOf X).2) := by
     rw [hnames]
-    simp only [v1Unsorted, List.map_map, rowOf, hfirst]
+    simp only [v1Unsorted, List.map_map, convRowOf, hfirst]
     exact List.map_congr_left (fun s hs => by simp [(hfiles s hs).2.1])
   obtain ⟨c', hc', hn'⟩ := C07_liveness (v1Unsorted cv ce w first (first :: rest)) table1
     (by rw [hnames]; exact htable.symm) (by rw [hflux]; simp) (by rw [herr]; simp)
@@ -145,19 +145,19 @@ theorem C07_formats [Zero K] (cv ce : S → K) (w : K) (aps : Option (List K))
   · simp [Conv.written, v2Filled]
   · intro X
     have h1 : c'.written.lookup X
-        = if X ∈ table1.map strip then some ((rowOf cv ce aps sedOf X).1, (rowOf cv ce aps sedOf X).2)
+        = if X ∈ table1.map strip then some ((convRowOf cv ce aps sedOf X).1, (convRowOf cv ce aps sedOf X).2)
           else none := by
-      have := lookupRow_map X (fun X => (rowOf cv ce aps sedOf X).1)
-        (fun X => (rowOf cv ce aps sedOf X).2) (table1.map strip)
+      have := lookupRow_map X (fun X => (convRowOf cv ce aps sedOf X).1)
+        (fun X => (convRowOf cv ce aps sedOf X).2) (table1.map strip)
       simp only [Conv.lookup]
       rw [hw1]
       simp only [Conv.written, hfl', her', hn']
       exact this
     have h2 : (v2Filled cv ce w cube).written.lookup X
-        = if X ∈ cube.names then some ((rowOf cv ce aps sedOf X).1, (rowOf cv ce aps sedOf X).2)
+        = if X ∈ cube.names then some ((convRowOf cv ce aps sedOf X).1, (convRowOf cv ce aps sedOf X).2)
           else none := by
-      have := lookupRow_map X (fun X => (rowOf cv ce aps sedOf X).1)
-        (fun X => (rowOf cv ce aps sedOf X).2) cube.names
+      have := lookupRow_map X (fun X => (convRowOf cv ce aps sedOf X).1)
+        (fun X => (convRowOf cv ce aps sedOf X).2) cube.names
       simp only [Conv.lookup, Conv.written, v2Filled, hw2, hF, hE]
       rw [hcubeSeds, hcubeAp]
       simp only [List.map_map]
@@ -172,49 +172,49 @@ theorem C07_formats [Zero K] (cv ce : S → K) (w : K) (aps : Option (List K))
 
 /-- three rows in directory-listing order (`a_m2 < b_m3 < c_m1` are the *file* names; the labels are
     the model names), two apertures -/
-def exConv : Conv Rat (List Rat) :=
+def c07ExConv : Conv Rat (List Rat) :=
   { names := ["m1", "m3", "m2"], apertures := some [10, 20], filtwav := 5 / 2,
     flux := [[1, 2], [3, 4], [5, 6]], error := [[1 / 10, 1 / 5], [3 / 10, 2 / 5], [1 / 2, 3 / 5]] }
 
 /-- parameter-table order ≠ listing order ≠ name order; two names padded with blanks -/
-def exReq : List String := ["m2  ", "m1", "m3 "]
+def c07ExReq : List String := ["m2  ", "m1", "m3 "]
 
 -- hypotheses of `C07_liveness`
-example : exConv.names.Perm (exReq.map strip) ∧ exConv.flux.length = exConv.names.length ∧
-    exConv.error.length = exConv.names.length := by decide
+example : c07ExConv.names.Perm (c07ExReq.map strip) ∧ c07ExConv.flux.length = c07ExConv.names.length ∧
+    c07ExConv.error.length = c07ExConv.names.length := by decide
 
 -- hypothesis of `C07_safety` (and, with distinct names, of `C07_safety_nodup`): it does return
-example : ∃ c', sortToMatch exConv exReq = .ok c' ∧ c'.names = ["m2", "m1", "m3"] :=
-  C07_liveness exConv exReq (by decide) (by decide) (by decide)
-example : exConv.names.Nodup := by decide
+example : ∃ c', sortToMatch c07ExConv c07ExReq = .ok c' ∧ c'.names = ["m2", "m1", "m3"] :=
+  C07_liveness c07ExConv c07ExReq (by decide) (by decide) (by decide)
+example : c07ExConv.names.Nodup := by decide
 
 -- the post-check is live: a requested list that is not a rearrangement is never accepted
-example : ∀ c', sortToMatch exConv ["m1", "m2", "m4"] ≠ .ok c' := by
+example : ∀ c', sortToMatch c07ExConv ["m1", "m2", "m4"] ≠ .ok c' := by
   intro c' h
   obtain ⟨-, -, -, -, -, hrow⟩ := C07_safety _ _ _ h
   obtain ⟨j, _, _, hj, -⟩ := hrow 2 (by decide)
-  have hmem : strip "m4" ∈ exConv.names := List.mem_iff_getElem?.mpr ⟨j, hj⟩
+  have hmem : strip "m4" ∈ c07ExConv.names := List.mem_iff_getElem?.mpr ⟨j, hj⟩
   revert hmem; decide
 
 /-- hypotheses of `C07_formats`: a name → SED map, three files, a permuted padded table, a cube in a
     third order -/
-def exSedOf (X : String) (ia : Nat) : Ap Nat := ⟨X.length + 10 * ia, 7 * X.length + ia⟩
-def exListing : List (SedFile Rat Nat) :=
-  [⟨"m1", some [10, 20], exSedOf "m1"⟩, ⟨"model_3", some [10, 20], exSedOf "model_3"⟩,
-   ⟨"m2", some [10, 20], exSedOf "m2"⟩]
-def exTable : List String := ["m2  ", "m1", "model_3 "]
-def exCube : Cube Rat Nat :=
+def c07ExSedOf (X : String) (ia : Nat) : Ap Nat := ⟨X.length + 10 * ia, 7 * X.length + ia⟩
+def c07ExListing : List (SedFile Rat Nat) :=
+  [⟨"m1", some [10, 20], c07ExSedOf "m1"⟩, ⟨"model_3", some [10, 20], c07ExSedOf "model_3"⟩,
+   ⟨"m2", some [10, 20], c07ExSedOf "m2"⟩]
+def c07ExTable : List String := ["m2  ", "m1", "model_3 "]
+def c07ExCube : Cube Rat Nat :=
   { names := ["model_3", "m2", "m1"], apertures := some [10, 20],
-    seds := ["model_3", "m2", "m1"].map exSedOf }
+    seds := ["model_3", "m2", "m1"].map c07ExSedOf }
 
-example : exListing ≠ [] ∧
-    (∀ s ∈ exListing, s.apertures = some [10, 20] ∧ s.sed = exSedOf s.name ∧ take30 s.name = s.name) ∧
-    (exTable.map strip).Perm (exListing.map (·.name)) ∧
-    exCube.apertures = some [10, 20] ∧ exCube.seds = exCube.names.map exSedOf ∧
-    exCube.names.Perm (exListing.map (·.name)) := by
+example : c07ExListing ≠ [] ∧
+    (∀ s ∈ c07ExListing, s.apertures = some [10, 20] ∧ s.sed = c07ExSedOf s.name ∧ take30 s.name = s.name) ∧
+    (c07ExTable.map strip).Perm (c07ExListing.map (·.name)) ∧
+    c07ExCube.apertures = some [10, 20] ∧ c07ExCube.seds = c07ExCube.names.map c07ExSedOf ∧
+    c07ExCube.names.Perm (c07ExListing.map (·.name)) := by
   refine ⟨by decide, ?_, by decide, rfl, rfl, by decide⟩
   intro s hs
-  simp only [exListing, List.mem_cons, List.not_mem_nil, or_false] at hs
+  simp only [c07ExListing, List.mem_cons, List.not_mem_nil, or_false] at hs
   rcases hs with rfl | rfl | rfl <;> exact ⟨rfl, rfl, by decide⟩
 
 end SF
